@@ -105,7 +105,7 @@ theorem init_spec (initCap : Nat) (s : List Bool) :
   unfold Builder.init
   by_cases hc : initCap ≤ 8
   · simp only [if_pos hc]
-    exact ⟨rfl, id, fun _ => rfl⟩
+    exact ⟨by first | rfl | trivial, id, fun _ => by first | rfl | trivial⟩
   · simp only [if_neg hc]
     cases hq : nextAlloc s with
     | mk ok r =>
@@ -126,7 +126,7 @@ theorem finish_spec (b : Builder α) (s : List Bool) :
   cases hst : b.store with
   | heap =>
     simp only
-    refine ⟨rfl, ?_, ?_, ?_⟩
+    refine ⟨by first | rfl | trivial, ?_, ?_, ?_⟩
     · intro st zs h
       simp only [Option.some.injEq, Prod.mk.injEq] at h
       exact ⟨h.1.symm, h.2.symm⟩
@@ -146,7 +146,7 @@ theorem finish_spec (b : Builder α) (s : List Bool) :
         cases ok with
         | true =>
           simp only [if_true]
-          refine ⟨rfl, ?_, ?_, ?_⟩
+          refine ⟨by first | rfl | trivial, ?_, ?_, ?_⟩
           · intro st zs h
             simp only [Option.some.injEq, Prod.mk.injEq] at h
             exact ⟨h.1.symm, h.2.symm⟩
@@ -154,7 +154,7 @@ theorem finish_spec (b : Builder α) (s : List Bool) :
           · intro _; simp [he]
         | false =>
           simp only [Bool.false_eq_true, if_false]
-          refine ⟨rfl, ?_, ?_, ?_⟩
+          refine ⟨by first | rfl | trivial, ?_, ?_, ?_⟩
           · intro st zs h; simp at h
           · intro _; exact Or.inr (nextAlloc_fst (by rw [hq]))
           · intro hn; exact absurd (nextAlloc_fst (by rw [hq])) hn
